@@ -32,7 +32,7 @@ def run_kernel(cfg) -> Outcome:
     dt = torch.complex64 if single else torch.complex128
     tol = max(tol, 1e-4 if single else 1e-9)
     viol = None
-    for which, fn, shape in (('forward', op.forward, dom), ('adjoint', op.adjoint, rng_shape)):
+    for which, fn, shape in (('forward', op.forward, dom), ('adjoint', op.adjoint, rng_shape), ('gram', op.gram, dom)):
         n = math.prod(shape)
 
         def rnd():
@@ -47,9 +47,21 @@ def run_kernel(cfg) -> Outcome:
             viol = viol or {'signature': f'linearity:{cfg["kind"]}:{which}', 'what': f'{cfg} {which}: A(ax+by) != aA(x)+bA(y) (rel dev {float((lhs - rhs).abs().max()) / scale:.2e})'}
         if bool((fn(torch.zeros(shape, dtype=dt))[0] != 0).any()):
             viol = viol or {'signature': f'linearity:{cfg["kind"]}:{which}:zero', 'what': f'{cfg} {which}: A(0) != 0'}
-        v = _ops.scale_sweep(fn, x / max(1e-30, float(x.abs().max())), y / max(1e-30, float(y.abs().max())), tol)
+        # (a composition A^H A rounds its large real part into the imaginary part of the result: the sharp tiny-imaginary test is for A, A^H)
+        v = _ops.scale_sweep(fn, x / max(1e-30, float(x.abs().max())), y / max(1e-30, float(y.abs().max())), tol, tiny_imag=which != 'gram')
         if v:
             viol = viol or {'signature': f'linearity:{cfg["kind"]}:{which}:scale', 'what': f'{cfg} {which}: {v}'}
+        # a real-dtype input is the same element of the domain as its complex copy
+        xr = x.real.contiguous()
+        try:
+            (lr,) = fn(xr)
+        except Exception:  # noqa: BLE001  (an operator may refuse real tensors; that is not a silent wrong result)
+            lr = None
+        if lr is not None:
+            (lc,) = fn(xr.to(dt))
+            if lr.shape != lc.shape or float((lr.to(dt) - lc).abs().max()) > 100 * tol * max(1e-30, float(lc.abs().max())):
+                viol = viol or {'signature': f'linearity:{cfg["kind"]}:{which}:real-input',
+                                'what': f'{cfg} {which}: A(x) for a real-dtype x differs from A(x + 0j) (superposition with complex scalars fails for real images)'}
         M = zoo_kernels.dense(fn, shape, single=single)
         got = fn(x)[0].reshape(-1).to(M.dtype)
         want = M @ x.reshape(-1).to(M.dtype)
